@@ -92,7 +92,8 @@ structure G1 where
 inductive Op1
   | request                          -- a request reaches the gate
   | gateInterrupted                  -- cancelled while waiting for the state lock: `if self._state == NEW: aclose()`
-  | progress (our their : Bool)      -- h11 moves on: what `our_state is DONE` / `their_state is DONE` say from now on
+  | progress (our their : Bool)      -- h11 moves on: what `our_state is DONE` / `their_state is DONE` say from now on (h11 works on
+                                     -- its own buffer: it can finish an exchange on a connection that has been closed meanwhile)
   | responseClosed (now : Nat)       -- `_response_closed()` of the open exchange
   | aclose
   deriving DecidableEq, Repr
@@ -102,7 +103,7 @@ def step1 (g : G1) : Op1 → G1
     let c' := Gen.h1Gate { g.c with raised := false }
     if c'.raised then { g with c := c' } else { g with c := c', exchangeOpen := true, accepted := g.accepted + 1 }
   | .gateInterrupted => if g.c.st = .new then { g with c := Gen.h1Aclose g.c } else g
-  | .progress o t => if g.exchangeOpen ∧ g.c.st = .active then { g with c := { g.c with ourDone := o, theirDone := t } } else g
+  | .progress o t => if g.exchangeOpen then { g with c := { g.c with ourDone := o, theirDone := t } } else g
   | .responseClosed now =>
     if ¬ g.exchangeOpen then g else
     let c' := Gen.h1ResponseClosed g.c now
